@@ -387,7 +387,7 @@ def run(ctx):
         "history_classes": dict(flags),
         "history_length_histogram": {str(k): v for k, v in sorted(lens.items())},
         "samples": [{"mix": h["mix"], "cmds": h["cmds"][:4], "results": h["results"][:4]} for h in hs[6:8]],
-        "stage": "A (kind-service-names, usage, virtual IPs) proved; B (gateway-services, mesh-topology) modelled, compared on every run and refuted by witnesses, not proved",
+        "stage": "A proved (virtual IP uniqueness in full; usage, kind-service-names and advertised virtual IPs refuted + proved under the exact excluding hypotheses); B (gateway-services, mesh-topology) modelled, compared with the implementation on every run and refuted by witnesses, not proved",
         "exhaustive": False,
     })
     return ctx.finish(cov, assumptions)
